@@ -18,6 +18,7 @@ extern crate rustc_hash;
 use proc_macro2::{TokenStream, Literal, Span};
 use syn::Ident;
 use naga::ShaderStage;
+use case::CaseExt;
 use naga::{Function, Module};
 #[path = "../../spec/lib/prelude.rs"] pub mod prelude;
 #[path = "../../spec/lib/iter_shims.rs"] pub mod iter_shims;
